@@ -11,6 +11,14 @@ def flatten_concat(e):
     e = unawait(e)
     if isinstance(e, ast.BinOp) and isinstance(e.op, ast.Add):
         return flatten_concat(e.left) + flatten_concat(e.right)
+    if isinstance(e, ast.Call) and isinstance(e.func, ast.Attribute) and e.func.attr == 'join' \
+            and isinstance(e.func.value, ast.Constant) and e.func.value.value == '' and \
+            len(e.args) == 1 and isinstance(e.args[0], (ast.List, ast.Tuple)) and \
+            not e.keywords:
+        out = []
+        for x in e.args[0].elts:
+            out.extend(flatten_concat(x))
+        return merge_consts(out)
     if isinstance(e, ast.JoinedStr):
         out = []
         for v in e.values:
